@@ -774,8 +774,23 @@ func retention(c *hl.Ctx) {
 
 func run(c *hl.Ctx) {
 	retention(c)
-	c.Rule("(a) codec sweep: every packet constructor x field alphabets (all 65536 user-control event types x 7 data x extra; uint32 boundary values, every byte-lane value in thorough; all 256 limit types; AMF0 object/value trees <= 3 nodes (thorough 4) as command object/arguments; transaction ids {1,2,3,1e9,2.5,0}; strings of length {0,1,255,256,65535}) checked for len==Size, reference bytes, unmarshal/re-marshal identity and field equality; (b) every request/response history of length <= D over 14 operations (requests with tids {1,2,3}, responses for tids {1,2,3} incl. unsolicited and repeated ones, other commands, control packets, server-side onStatus) on two real endpoints, against a reference outstanding-request map; (c) typed waits behind every filler sequence of length <= 3 over 5 filler packets. state = (reference map, dumped transaction table); transition = one operation.")
-	c.Assume("strict arrays are outside the tree alphabet here (AMF0 layout is C05/C06's subject)", "two outstanding requests with the same transaction id, transaction ids <= 0 and _error responses are not generated", "fillers are packets the library itself constructs (no Acknowledgement type exists in the library)")
+	c.Rule("(a) codec sweep: every packet constructor x field alphabets (all 65536 user-control event types x 7 data x extra; uint32 boundary values, every byte-lane value in thorough; all 256 limit types; AMF0 object/value trees <= 3 nodes (thorough 4) as command object/arguments; transaction ids {1,2,3,1e9,2.5,0}; strings of length {0,1,255,256,65535}) checked for len==Size, reference bytes, unmarshal/re-marshal identity and field equality; (b) every request/response history of length <= D over 14 operations (requests with tids {1,2,3}, responses for tids {1,2,3} incl. unsolicited and repeated ones, other commands, control packets, server-side onStatus) on two real endpoints, against a reference outstanding-request map; (c) typed waits behind every filler sequence of length <= 3 over 5 filler packets; (d) ExpectMessage with no type and with every ordered selection of 1..3 distinct types from {audio, video, AMF0 data, AMF0 command, user control, set chunk size, AMF3 data (never arrives)} against every arrival order of length <= L (quick 4, thorough 5) over {user control, window ack size, set peer bandwidth, set chunk size 16+i, onStatus command, audio, video, data message}, the call repeated until it fails, against a cursor model: the wait returns the first arrival at or after the cursor whose type is requested (type and payload equal, every payload carries its position), everything before it is skipped, nothing behind it is consumed, and it fails when none is left; (e) ExpectPacket for each of the 11 packet types and for the Packet interface against every arrival order of length <= L (quick 4, thorough 5) over the 11 packets the library constructs (4 control, onStatus, publish, connect, createStream, play, connect response, createStream response) with connect(1) and createStream(2) outstanding, same cursor model plus the outstanding-request map (a skipped response is consumed; a second response for an answered request makes the wait fail). A (d)/(e) case is non-trivial when at least one wait returned a message. state = (reference map, dumped transaction table); transition = one operation.")
+	c.Assume("strict arrays are outside the tree alphabet here (AMF0 layout is C05/C06's subject)", "two outstanding requests with the same transaction id, transaction ids <= 0 and _error responses are not generated", "fillers are packets the library itself constructs (no Acknowledgement type exists in the library)",
+		"(e): audio, video and data messages are not put in front of ExpectPacket (the statement promises skipping of control and command traffic only); for createStream and play, which DESIGN A.3 lets decode either as a generic call packet or as their own type, the class is taken from the library's DecodeMessage of that single command (judged by part (b)); expected payloads of packets are the library's MarshalBinary (judged by part (a)); waits after a failed wait are not judged")
+	// the typed-wait families are cheap in both tiers and run first, so that a thorough budget spent in the deep
+	// codec sweep and histories never leaves them out
+	lm, lp := 4, 4
+	if c.Thorough() {
+		lm, lp = 5, 5
+	}
+	waitMessages(c, lm)
+	if c.Expired() {
+		return
+	}
+	waitPackets(c, lp)
+	if c.Expired() {
+		return
+	}
 	codecs(c)
 	if c.Expired() {
 		return
@@ -793,6 +808,9 @@ func run(c *hl.Ctx) {
 }
 
 func replay(c *hl.Ctx, raw json.RawMessage) {
+	if replayWait(c, raw) {
+		return
+	}
 	var cs struct {
 		Part string `json:"part"`
 		Ops  []Op   `json:"ops"`
